@@ -61,6 +61,8 @@ class Profile:
         max_params=4,
         float_rem=False,
         observe=True,
+        late_allocs=False,
+        phi_liveout=False,
     ):
         self.__dict__.update(locals())
         del self.__dict__["self"]
@@ -320,6 +322,15 @@ class _FuncGen:
                 for pn, pty in phis[b]:
                     if self.chance(60):
                         self.observe(pn, pty, pool, out)
+            if prof.phi_liveout:
+                # b is entered over an edge P->b whose source also branches to a dominating phi block H:
+                # the phis of H are live on that edge (loop exit, 'lost copy' shape) -- make them matter
+                for p in preds[b]:
+                    for h in succs[p]:
+                        if h != b and h in dom[b] and phis[h]:
+                            for pn, pty in phis[h]:
+                                if self.chance(70):
+                                    self.observe(pn, pty, pool, out)
             nins = 0 if (b > 0 and self.chance(22)) else draw(st.integers(0, prof.max_ins))
             for _ in range(nins):
                 self.gen_instruction(pool, out, define)
@@ -414,6 +425,13 @@ class _FuncGen:
     def entry_setup(self, pool, out, define):
         draw, prof = self.draw, self.prof
         for _ in range(draw(st.integers(0, 3))):
+            self.gen_alloca(pool, out, define)
+
+    def gen_alloca(self, pool, out, define):
+        """alloc + address (+ usually initialising stores); used for the entry block and, with Profile.late_allocs,
+        anywhere (allocas in conditionally executed blocks and in loops, as front-ends emit them at declarations)"""
+        prof = self.prof
+        if True:
             size = self.pick([1, 2, 4, 4, 8, 8, 12, 16, 24])
             align = self.pick([a for a in (1, 2, 4, 8) if a <= max(1, size) and size % a == 0])
             an = self.fresh("a")
@@ -494,6 +512,8 @@ class _FuncGen:
 
     def gen_instruction(self, pool, out, define):
         draw, prof = self.draw, self.prof
+        if prof.late_allocs and self.chance(5):
+            return self.gen_alloca(pool, out, define)
         r = draw(st.integers(0, 109))
         if r >= 105:
             return self.gen_mem_idiom(pool, out, define)
